@@ -648,6 +648,10 @@ LENGTH_ATTRS = {
     ('ChebyshevPolynomialGeometry', 'norm_x'):
         'aspheric / polynomial coefficients and norms',
     ('Field', 'y'): 'object-height field values',
+    # lengths held by the rules that update() re-applies: left unscaled they
+    # pull the scaled lens back at the next update
+    ('MarginalRayHeightSolve', 'height'): 'solve target heights',
+    ('Pickup', 'offset'): 'radius / thickness pickup offsets',
 }
 
 
